@@ -10,7 +10,7 @@ run_suite() { (cd $WT && PYTHONPATH=$WT timeout 900 /venv/bin/python -m pytest -
 run_suite > /tmp/confirm_base.txt
 echo "baseline: $(grep -c ^PASSED /tmp/confirm_base.txt) passed $(grep -c ^FAILED /tmp/confirm_base.txt) failed"
 for id in "$@"; do for x in A B; do
-  src=/tmp/seed_$id/$x; [ -f $src/patch.diff ] || { echo "$id-$x: no patch"; continue; }
+  src=${SRC:-/tmp/seed_}$id/$x; y=$x; [ -n "${ROUND2:-}" ] && { [ $x = A ] && y=C || y=D; }; [ -f $src/patch.diff ] || { echo "$id-$x: no patch"; continue; }
   git -C $WT checkout -q -- . ; 
   if ! git -C $WT apply $src/patch.diff 2>/tmp/confirm_err.txt; then echo "$id-$x: PATCH DOES NOT APPLY: $(head -2 /tmp/confirm_err.txt)"; continue; fi
   run_suite > /tmp/confirm_seed.txt
@@ -20,9 +20,9 @@ for id in "$@"; do for x in A B; do
   git -C $WT checkout -q -- .
   (cd /tmp && PYTHONPATH=$WT timeout 600 /venv/bin/python $src/demo.py >/tmp/confirm_demo0.txt 2>&1); rc_clean=$?
   ok=no; [ $newfail -eq 0 ] && [ $rc_changed -eq 1 ] && [ $rc_clean -eq 0 ] && ok=yes
-  echo "$id-$x: newly_failing_tests=$newfail passed=$npass demo_changed_rc=$rc_changed demo_clean_rc=$rc_clean confirmed=$ok"
+  echo "$id-$y ($x): newly_failing_tests=$newfail passed=$npass demo_changed_rc=$rc_changed demo_clean_rc=$rc_clean confirmed=$ok"
   if [ $ok = yes ]; then
-    d=/verif/seeded/$id-$x; mkdir -p $d; cp $src/patch.diff $src/demo.py $d/; cp $src/notes.md $d/notes.md 2>/dev/null
+    d=/verif/seeded/$id-$y; mkdir -p $d; cp $src/patch.diff $src/demo.py $d/; cp $src/notes.md $d/notes.md 2>/dev/null
     /venv/bin/python - "$id" "$x" "$d" "$npass" <<'PY'
 import json, sys, subprocess
 pid, x, d, npass = sys.argv[1:5]
